@@ -92,15 +92,15 @@ fn props() -> Vec<Prop> {
             id: "C19",
             scenario: "sendbody-progress",
             run: scen_send::c19,
-            quick: 300_000,
+            quick: 400_000,
             thorough: 15_000_000,
-            subs: &["chunked-pairs", "chunked-loops", "sized-pairs"],
+            subs: &["chunked-pairs", "chunked-loops", "sized-pairs", "chunked-pairs-enumerated"],
             level: "exploration",
             rule: "seeded (input length, output length) pairs with output 6..=11000 and around multiples of 10248, and whole-body loops through one fixed buffer; non-trivial = every pair, every loop with >=2 calls; distinct = (size buckets, full-consumption / call count)",
             assumptions: &[A_COMMON],
             cells_total: 0,
             cells_what: "",
-            exhaustive_note: "",
+            exhaustive_note: "sub-batch chunked-pairs-enumerated: the run index enumerates every output size 6..=11000 x 8 input classes {1, advertised max, max+1, max-1, out, out+1, out-5, two chunks + 17}: 87960 pairs, all of them in every quick run (100000 runs of that sub-batch) and every thorough run",
         },
         Prop {
             id: "C05",
@@ -142,7 +142,7 @@ fn props() -> Vec<Prop> {
             assumptions: &[A_COMMON, "chunk size line (digits + extension) <= 20 bytes: the decoder's sanity limit is treated as a resource limit", "trailer lines contain no bare CR"],
             cells_total: 13 * 8,
             cells_what: "(grammar class of the last visible coding byte: size digit, ext, size CR, size LF, data, data CR, data LF, last-chunk size, trailer, trailer CR, trailer LF, final CR, final LF) x (output space 0 / 1 / 2..4 / larger) x (boundary stop on/off)",
-            exhaustive_note: "sub-batch small-scope-enumerated: the run index enumerates (coding of <=3 chunks with sizes 1..3, extension yes/no, 0..2 trailers, leading zeros yes/no: 480 codings) x (one-shot / every single cut position / byte-by-byte) x (output size 0,1,2,3,4,large) x (boundary stop on/off); the product (~2.6e5 runs) is covered completely by the thorough tier and strided by the quick tier; multi-cut sets and the hex-boundary sizes are sampled",
+            exhaustive_note: "sub-batch small-scope-enumerated: the run index enumerates (coding of <=3 chunks with sizes 1..3, extension yes/no, 0..2 trailers, leading zeros yes/no: 480 codings) x (one-shot / every single cut position / byte-by-byte / every pair of cut positions) x (output size 0,1,2,3,4,large) x (boundary stop on/off); the quick tier covers every (coding, single cut) pair, the thorough tier (5e6 runs of this sub-batch) covers the whole single-cut product and the pair-of-cuts product for output/stop combinations in run-index order; larger cut sets and the hex-boundary sizes are sampled",
         },
         Prop {
             id: "C08",
